@@ -98,10 +98,11 @@ PROPERTIES["C05"] = {
     "rule": "one evaluation = one multi-buffer input read by the real Reader under a seeded schedule with tape-chosen pool size (1..32), queue bounds, PBF pool use, buffers_type, entity mask (16 subsets), read_meta, read()/InputIterator and parser buffer sizes (hook H2), compared object by object with a non-preemptive single-threaded reference decode of the same bytes. "
             "Non-trivial = >= 2 threads enabled at once; distinct = distinct schedule signature.",
     "modes": [
-        {"mode": "c05", "harness": "reader", "runs": {"quick": 25000, "thorough": 800000}, "share": 0.7},
-        {"mode": "c05convert", "harness": "reader", "runs": {"quick": 10000, "thorough": 400000}, "share": 0.3},
+        {"mode": "c05", "harness": "reader", "runs": {"quick": 25000, "thorough": 800000}, "share": 0.6},
+        {"mode": "c05convert", "harness": "reader", "runs": {"quick": 10000, "thorough": 400000}, "share": 0.2},
+        {"mode": "c05multi", "harness": "reader", "runs": {"quick": 10000, "thorough": 400000}, "share": 0.2},
     ],
-    "expected_probes": ["three or more buffers delivered", "PBF decoded with >= 2 pool threads", "condvar timeout fired", "Reader and Writer shared one pool"],
+    "expected_probes": ["three or more buffers delivered", "PBF decoded with >= 2 pool threads", "condvar timeout fired", "Reader and Writer shared one pool", "several Readers shared one pool"],
     "components_real": READER_REAL,
     "components_stubbed": READER_STUB,
     "assumptions": COMMON_ASSUMPTIONS,
